@@ -64,6 +64,7 @@ fn rd_varint_diff<I: VarInt + PartialEq + Copy>(restrict: Option<bool>, max32: u
 #[kani::stub(alloc::fmt::format, crate::verif::stub_format)]
 fn c11_rd_varint_i64() {
 	rd_varint_diff::<i64>(None, 10);
+	kani::cover!(true, "end of harness reached");
 }
 
 // @harness props=C11 tier=quick timeout=900
@@ -73,6 +74,7 @@ fn c11_rd_varint_i64() {
 #[kani::stub(alloc::fmt::format, crate::verif::stub_format)]
 fn c11_rd_varint_u64() {
 	rd_varint_diff::<u64>(None, 10);
+	kani::cover!(true, "end of harness reached");
 }
 
 // @harness props=C11 tier=quick timeout=900
@@ -82,6 +84,7 @@ fn c11_rd_varint_u64() {
 #[kani::stub(alloc::fmt::format, crate::verif::stub_format)]
 fn c11_rd_varint_i32() {
 	rd_varint_diff::<i32>(Some(false), 5);
+	kani::cover!(true, "end of harness reached");
 }
 
 // @harness props=C11 tier=quick timeout=900 finding=F1
@@ -91,6 +94,7 @@ fn c11_rd_varint_i32() {
 #[kani::stub(alloc::fmt::format, crate::verif::stub_format)]
 fn c11_rd_varint_i32_overlong() {
 	rd_varint_diff::<i32>(Some(true), 5);
+	kani::cover!(true, "end of harness reached");
 }
 
 // @harness props=C11 tier=quick timeout=900
@@ -100,6 +104,7 @@ fn c11_rd_varint_i32_overlong() {
 #[kani::stub(alloc::fmt::format, crate::verif::stub_format)]
 fn c11_rd_varint_u32() {
 	rd_varint_diff::<u32>(Some(false), 5);
+	kani::cover!(true, "end of harness reached");
 }
 
 // @harness props=C11 tier=quick timeout=900 finding=F1
@@ -109,6 +114,7 @@ fn c11_rd_varint_u32() {
 #[kani::stub(alloc::fmt::format, crate::verif::stub_format)]
 fn c11_rd_varint_u32_overlong() {
 	rd_varint_diff::<u32>(Some(true), 5);
+	kani::cover!(true, "end of harness reached");
 }
 
 pub(crate) fn consumed(r: &ReaderRead<Chunked<'_>>) -> usize {
@@ -171,6 +177,7 @@ fn c11_rd_slice_twice() {
 	}
 	std::mem::forget(a1);
 	std::mem::forget(b1);
+	kani::cover!(true, "end of harness reached");
 }
 
 // @harness props=C11 tier=quick timeout=1200
@@ -201,4 +208,5 @@ fn c11_rd_skip() {
 	}
 	std::mem::forget(a);
 	std::mem::forget(b);
+	kani::cover!(true, "end of harness reached");
 }
